@@ -237,6 +237,41 @@ fn main() {
                 _ => println!("PANIC Evaluator::call_stack() on an empty call stack"),
             }
         }
+        Some("frozen-call") => {
+            // verif_replay frozen-call <library source> <caller source>: the library module is evaluated and FROZEN, the
+            // caller `load`s every name from it, so its call sites are compiled against frozen defs.
+            let lib_src = args[2].clone();
+            let call_src = args[3].clone();
+            let r = std::panic::catch_unwind(|| {
+                let globals = Globals::extended_internal();
+                let frozen = Module::with_temp_heap(|lib| {
+                    let ast = AstModule::parse("lib.star", lib_src.clone(), &Dialect::Extended).unwrap();
+                    {
+                        let mut eval = Evaluator::new(&lib);
+                        eval.eval_module(ast, &globals).unwrap();
+                    }
+                    lib.freeze()
+                }).unwrap();
+                Module::with_temp_heap(|m| {
+                    let mut modules = std::collections::HashMap::new();
+                    modules.insert("lib.star", &frozen);
+                    let mut loader = starlark::eval::ReturnFileLoader { modules: &modules };
+                    let ast = AstModule::parse("caller.star", call_src.clone(), &Dialect::Extended).unwrap();
+                    let mut eval = Evaluator::new(&m);
+                    eval.set_loader(&mut loader);
+                    let r = match eval.eval_module(ast, &globals) {
+                        Ok(v) => format!("OK {}", v.to_repr()),
+                        Err(e) => format!("ERR {}", first_line(&format!("{:#}", e.kind()))),
+                    };
+                    Ok::<String, anyhow::Error>(r)
+                })
+            });
+            match r {
+                Ok(Ok(s)) => println!("{}", s),
+                Ok(Err(e)) => println!("ERR {}", e),
+                Err(_) => println!("PANIC"),
+            }
+        }
         Some("module-depth") => {
             // eval_module must hand the call stack back empty on every exit: Ok, a run-time error, a stack overflow,
             // a tick-limit error and a cancellation noticed only by the end-of-module check.
